@@ -8,7 +8,7 @@ from harness.c13 import translate_b as TB
 
 ID = 'C13'
 HERE = os.path.dirname(os.path.abspath(__file__))
-CASES = {'quick': 15000, 'thorough': 170000}
+CASES = {'quick': 19000, 'thorough': 175000}
 PARALLEL = True
 PROOF_TIMEOUT = 900
 ALLOWED_AXIOMS = ()
@@ -17,7 +17,11 @@ RULE = ('request cases: every single injection point (20) x exception kind (plai
         'Exception, view for HTTPException, default exceptionresponse view; each user view rendering or raising each kind) '
         'x route or traversal x callback-registration pattern, enumerated; single faults inside a subrequest; random '
         'scenario trees (subrequests to depth 3, with and without tweens, up to 3 faults, random registrations); the same '
-        'single-fault sweep on apps whose event subscribers are registered only AFTER the router was built; 36 two-thread '
+        'single-fault sweep on apps whose event subscribers are registered only AFTER the router was built, and on apps '
+        'whose registry has a HISTORY (handlers / subscription adapters registered and removed again through the '
+        'registry API before the request); RETRY cases: one request object sent through Router.invoke_request twice by a '
+        'custom execution policy (after a failure / always), single fault in either attempt x mask, callbacks registered '
+        'in both attempts (judge_retry); 36 two-thread '
         'interleavings (a fresh thread serves a request while another is inside its view; a test). thorough '
         'adds every PAIR of faults in one request and every (parent, subrequest) fault pair x use_tweens, and a 16-thread '
         'soak (a test: per-thread stacks independent, observations equal to the single-threaded ones). scope cases: the 16 '
@@ -38,6 +42,10 @@ ASSUMPTIONS = [
     'interleavings in quick, 16-thread soak in thorough), not proved',
     'a finished callback that itself raises stops the remaining finished callbacks (documented behaviour): the callback '
     'clause of the property is only judged for scenarios without a raising finished callback',
+    'the event gate registry.has_listeners is never switched off: checked structurally on every run (exact list of the '
+    'places in src/pyramid that store the flag, exact list of names the Registry class defines), not proved',
+    'retry cases: the full judge_retry statement is proved only in parts (depth / currency, first attempt, finished '
+    'callbacks of both attempts); the rest is TODO (unproved) and validated by evaluating judge_retry on the model run',
     'callbacks may register callbacks of their own kind; each registration entry of a callback fires once (it names the '
     'running number of the callback that makes it), so chains are bounded',
 ]
@@ -72,7 +80,10 @@ LEVEL_TEXT = ('Machine-checked: (a) for the regenerated skeletons of Router.__ca
               'default_execution_policy, invoke_subrequest, _error_handler and excview_tween equal the reference programs '
               'for every behaviour of their leaves, the interpreter assembled from them equals the pipeline interpreter '
               '(C13_gen_run_is_model), and the statements of (b) hold of it (C13_gen_pipeline_depth, '
-              'C13_gen_satisfies_judge).')
+              'C13_gen_satisfies_judge); (d) for one request object sent through invoke_request twice inside one request '
+              'context: stack restored and every event under its own request (C13_retry_depth), the first attempt '
+              'satisfies the judge, the finished callbacks of each attempt run once, in order, last, and the second attempt '
+              'starts with an empty deque (C13_retry_finished_callbacks).')
 LEVEL_NOTE = ('Trusted: Coq kernel; the two translators with their binding / leaf tables; the hand-written parts of the pipeline '
               'model (handle_request, view lookup, exception-view selection: shape-pinned, validated by the fault-injection '
               'correspondence); what a leaf means (prims_of in Model/C13.v); Python harness. The judge proved of the model is the same '
@@ -85,6 +96,8 @@ PINS_SPEC = {
     'pyramid/view.py': ['_call_view', 'ViewMethodsMixin.invoke_exception_view', '_find_views', 'render_view_to_response'],
     'pyramid/scripting.py': ['AppEnvironment.__enter__', '_make_request'],
     'pyramid/util.py': ['hide_attrs'],
+    'pyramid/registry.py': ['Registry.notify', 'Registry.registerHandler', 'Registry.registerSubscriptionAdapter'],
+    'pyramid/config/__init__.py': ['Configurator._fix_registry'],
     'pyramid/viewderivers.py': ['_secured_view', 'rendered_view'],
     'pyramid/config/views.py': ['predicated_view', 'ViewsConfiguratorMixin.add_default_view_derivers',
                                 'ViewsConfiguratorMixin._apply_view_derivers'],
@@ -239,12 +252,102 @@ def binding_facts(src, problems):
         problems.append('binding facts unrecognised: %r' % e)
 
 
+# ---- the event gate `has_listeners` (code OUTSIDE the anchor files the property's NewResponse clause passes
+# through: pyramid/registry.py, Configurator._fix_registry).  The router only notifies when the flag is set, so
+# the model's "the NewResponse subscriber runs" rests on: the flag is never switched off again.  Fail-closed:
+# the exact list of places in src/pyramid that store to / delete / name-as-a-string `has_listeners`, and the
+# exact list of names the Registry class body defines (a new override such as unregisterHandler is a problem).
+HAS_LISTENERS_SITES = sorted([
+    ('pyramid/registry.py', 'Registry', 'has_listeners = False'),
+    ('pyramid/registry.py', 'Registry.registerSubscriptionAdapter', 'self.has_listeners = True'),
+    ('pyramid/registry.py', 'Registry.registerHandler', 'self.has_listeners = True'),
+    ('pyramid/config/__init__.py', 'Configurator._fix_registry', '_registry.has_listeners = True'),
+    ('pyramid/config/__init__.py', 'Configurator._fix_registry', "'has_listeners'"),
+    ('pyramid/router.py', 'Router.handle_request', 'has_listeners = registry.has_listeners'),
+    ('pyramid/router.py', 'Router.invoke_request', 'has_listeners = registry.has_listeners'),
+])
+REGISTRY_CLASS_NAMES = ['has_listeners', '_settings', '__init__', '_clear_view_lookup_cache', '__bool__',
+                        'package_name', 'registerSubscriptionAdapter', 'registerSelfAdapter', 'queryAdapterOrSelf',
+                        'registerHandler', 'notify', '_get_settings', '_set_settings', 'settings']
+
+
+def has_listeners_facts(src, problems):
+    import ast
+    found = []
+    root = os.path.join(src, 'pyramid')
+    for dirpath, dirs, files in os.walk(root):
+        dirs[:] = [d for d in dirs if d not in ('scaffolds', '__pycache__')]
+        for fn in sorted(files):
+            if not fn.endswith('.py'):
+                continue
+            path = os.path.join(dirpath, fn)
+            rel = os.path.relpath(path, src)
+            try:
+                with open(path) as f:
+                    text = f.read()
+                if 'has_listeners' not in text:
+                    continue
+                tree = ast.parse(text)
+            except (OSError, SyntaxError, UnicodeDecodeError) as e:
+                problems.append('has_listeners: cannot parse %s: %s' % (rel, e))
+                continue
+
+            def walk(node, qual):
+                for ch in ast.iter_child_nodes(node):
+                    q = qual
+                    if isinstance(ch, (ast.FunctionDef, ast.AsyncFunctionDef, ast.ClassDef)):
+                        q = (qual + '.' if qual else '') + ch.name
+                        doc = ast.get_docstring(ch, clean=False)
+                    if isinstance(ch, (ast.Assign, ast.AugAssign, ast.AnnAssign, ast.Delete)):
+                        tgs = getattr(ch, 'targets', None) or [getattr(ch, 'target', None)]
+                        for t in tgs:
+                            for x in ast.walk(t) if t is not None else []:
+                                if (isinstance(x, ast.Attribute) and x.attr == 'has_listeners') or \
+                                        (isinstance(x, ast.Name) and x.id == 'has_listeners'):
+                                    found.append((rel, qual, ast.unparse(ch)))
+                    if isinstance(ch, ast.Constant) and isinstance(ch.value, str) and ch.value == 'has_listeners':
+                        found.append((rel, qual, repr(ch.value)))
+                    if isinstance(ch, (ast.For, ast.With, ast.NamedExpr, ast.comprehension)):
+                        for x in ast.walk(getattr(ch, 'target', None) or ast.Pass()):
+                            if isinstance(x, ast.Name) and x.id == 'has_listeners':
+                                found.append((rel, qual, 'bound by %s' % type(ch).__name__))
+                    walk(ch, q)
+            walk(tree, '')
+    found.sort()
+    if found != HAS_LISTENERS_SITES:
+        extra = [x for x in found if x not in HAS_LISTENERS_SITES]
+        gone = [x for x in HAS_LISTENERS_SITES if x not in found]
+        problems.append('has_listeners gate: the places that set the flag changed (the router skips every event, '
+                        'NewResponse included, when it is off): new %r, gone %r' % (extra, gone))
+    try:
+        m = F.Module(src, 'pyramid/registry.py')
+        cls = m.find('Registry')
+        names = []
+        for st in cls.body:
+            if isinstance(st, (ast.FunctionDef, ast.AsyncFunctionDef, ast.ClassDef)):
+                names.append(st.name)
+            elif isinstance(st, ast.Assign):
+                names += [t.id for t in st.targets if isinstance(t, ast.Name)]
+            elif isinstance(st, ast.AnnAssign) and isinstance(st.target, ast.Name):
+                names.append(st.target.id)
+        if names != REGISTRY_CLASS_NAMES:
+            problems.append('Registry class body: names defined changed: new %r, gone %r'
+                            % ([n for n in names if n not in REGISTRY_CLASS_NAMES],
+                               [n for n in REGISTRY_CLASS_NAMES if n not in names]))
+        if [ast.unparse(b) for b in cls.bases] != ['Components', 'dict']:
+            problems.append('Registry bases changed: %r' % [ast.unparse(b) for b in cls.bases])
+    except Exception as e:
+        problems.append('Registry class facts unrecognised: %r' % e)
+    return len(found)
+
+
 def facts(src):
     problems = []
     summary = F.check_shapes(src, os.path.join(HERE, 'pins.json'), problems)
     summary.update(check_masked(src, problems))
     summary['no_stack_reference_functions'] = no_stack_reference(src, problems)
     binding_facts(src, problems)
+    summary['has_listeners_sites'] = has_listeners_facts(src, problems)
     try:
         t = TR.translate(src)
         problems += t['problems']
@@ -331,6 +434,37 @@ def enumerate_late_subscribers():
     return out
 
 
+def enumerate_registry_history():
+    """excview mask + 16: handlers / subscription adapters were registered on the app's registry and removed again
+    before the request (history on one long-lived registry): every single fault again"""
+    out = []
+    for mask in (16, 17, 23, 24):
+        for route in (0, 1):
+            out.append({'t': 'req', 'excview': mask, 'scn': scn(route, [], REG_PATTERNS[1])})
+            for f in single_faults():
+                out.append({'t': 'req', 'excview': mask, 'scn': scn(route, [f], REG_PATTERNS[1])})
+    return out
+
+
+def enumerate_retry():
+    """the same request object through Router.invoke_request twice (custom execution policy retrying inside one
+    request context): first attempt x single fault, second attempt healthy, and the other way round; both
+    attempts register callbacks of both kinds, also from callbacks"""
+    out = []
+    regs = REG_PATTERNS[1]
+    for mode in (0, 1):
+        for mask in (0, 1, 7):
+            for route in ((0, 1) if mask == 1 else (0,)):
+                out.append({'t': 'retry', 'excview': mask, 'mode': mode, 'scn': scn(route, [], regs),
+                            'scn2': scn(route, [], regs)})
+                for f in single_faults():
+                    out.append({'t': 'retry', 'excview': mask, 'mode': mode, 'scn': scn(route, [f], regs),
+                                'scn2': scn(route, [], regs)})
+                    out.append({'t': 'retry', 'excview': mask, 'mode': mode, 'scn': scn(route, [[12, 1, 0]], regs),
+                                'scn2': scn(route, [f], REG_PATTERNS[2])})
+    return out
+
+
 def enumerate_interleavings():
     """two fresh threads: A is inside its view while B (touching the thread-local manager for the first time)
     serves a complete request; then A's view probes its frame again"""
@@ -403,7 +537,8 @@ def rand_scn(rng, depth):
 
 
 def generate(rng, tier, n):
-    fixed = enumerate_scopes() + enumerate_interleavings() + enumerate_single() + enumerate_late_subscribers()
+    fixed = enumerate_scopes() + enumerate_interleavings() + enumerate_single() + enumerate_late_subscribers() \
+        + enumerate_registry_history() + enumerate_retry()
     if tier == 'thorough':
         fixed.append({'t': 'soak', 'threads': 16, 'per_thread': 400, 'seed': 13})
     for c in fixed:
@@ -422,8 +557,13 @@ def generate(rng, tier, n):
                                       {'tweens': tw, 'scn': scn(0, [[p, kind, 0]], [[3, 3, 0], [12, 3, 0], [16, 1, 0]])})}
                     k += 1
     m = max(0, n - len(fixed) - k)
-    for _ in range(m):
-        yield {'t': 'req', 'excview': rng.choice([0, 1, 1, 2, 3, 4, 5, 6, 7, 7]) + rng.choice([0, 0, 8]), 'scn': rand_scn(rng, rng.choice([0, 1, 1, 2, 3]))}
+    for i in range(m):
+        if i % 8 == 7:
+            s1, s2 = rand_scn(rng, 0), rand_scn(rng, 0)
+            s2['route'] = s1['route']       # one request object: the URL (route or traversal) is the first attempt's
+            yield {'t': 'retry', 'excview': rng.choice(range(8)), 'mode': rng.choice([0, 1]), 'scn': s1, 'scn2': s2}
+            continue
+        yield {'t': 'req', 'excview': rng.choice([0, 1, 1, 2, 3, 4, 5, 6, 7, 7]) + rng.choice([0, 0, 8]) + rng.choice([0, 0, 0, 16]), 'scn': rand_scn(rng, rng.choice([0, 1, 1, 2, 3]))}
 
 
 def _valid_scn(s, depth):
@@ -463,13 +603,18 @@ def valid(case):
             return case['threads'] == 16 and 0 < case['per_thread'] <= 2000
         if case.get('t') == 'interleave':
             return valid(case['a']) and valid(case['b']) and case['a']['t'] == 'req' and case['b']['t'] == 'req'
-        return case.get('t') == 'req' and case['excview'] in range(16) and _valid_scn(case['scn'], 0)
+        if case.get('t') == 'retry':
+            return case['excview'] in range(8) and case['mode'] in (0, 1) and _valid_scn(case['scn'], 0) \
+                and _valid_scn(case['scn2'], 0) and case['scn']['sub'] is None and case['scn2']['sub'] is None \
+                and case['scn']['route'] == case['scn2']['route'] \
+                and set(case) == {'t', 'excview', 'mode', 'scn', 'scn2'}
+        return case.get('t') == 'req' and case['excview'] in range(32) and _valid_scn(case['scn'], 0)
     except Exception:
         return False
 
 
 def shrinks(case):
-    if case.get('t') != 'req':
+    if case.get('t') not in ('req', 'retry'):
         return
 
     def sub_variants(s):
@@ -499,7 +644,12 @@ def shrinks(case):
                 yield dict(s, sub=dict(s['sub'], tweens=0))
     for v in sub_variants(case['scn']):
         yield dict(case, scn=v)
-    for bit in (8, 4, 2, 1):
+    if case['t'] == 'retry':
+        for v in sub_variants(case['scn2']):
+            yield dict(case, scn2=v)
+        if case['mode']:
+            yield dict(case, mode=0)
+    for bit in (16, 8, 4, 2, 1):
         if case['excview'] & bit:
             yield dict(case, excview=case['excview'] & ~bit)
 
@@ -510,7 +660,7 @@ _cache = {}
 
 def setup(tier):
     from harness.c13 import app as A
-    for m in range(16):
+    for m in range(32):
         A.get_app(m)
 
 
@@ -638,6 +788,8 @@ def to_wire(case):
     ob = []
     if obs is not None and obs[1] >= 0:
         ob = [obs[1], [list(e) for e in obs[2]]]
+    if case['t'] == 'retry':
+        return [case['excview'] & 7, case['mode'], _scn_wire(case['scn']), _scn_wire(case['scn2']), ob]
     return [case['excview'] & 7, _scn_wire(case['scn']), ob]
 
 
@@ -688,6 +840,8 @@ def _fired(case, obs):
     """faults whose point appears in the log"""
     pts = set((e[0], e[1]) for e in obs[2])
     out = []
+    if case['t'] == 'retry':
+        return [f for f in case['scn']['faults'] + case['scn2']['faults'] if (f[0], 0) in pts]
     s, lvl = case['scn'], 0
     while s is not None:
         out += [f for f in s['faults'] if (f[0], lvl) in pts]
@@ -722,7 +876,20 @@ def kinds(case, obs):
     k = ['outcome:%s' % ('response-from-%s' % POINT_NAMES.get(obs[0][1], obs[0][1]) if obs[0][0] == 'resp'
                          else 'exception-kind-%s' % obs[0][1])]
     k.append('excview-mask:%d' % (case['excview'] & 7))
+    if case['t'] == 'retry':
+        k.append('retry:same-request-through-invoke_request-twice' if any(e[0] == 22 for e in obs[2])
+                 else 'retry:first-attempt-returned')
+        k.append('retry-mode:%s' % ('always' if case['mode'] else 'after-failure'))
+        n1 = [e[0] for e in obs[2]].index(22) if any(e[0] == 22 for e in obs[2]) else len(obs[2])
+        if any(e[0] == 18 for e in obs[2][n1:]):
+            k.append('retry:finished-callback-ran-in-second-attempt')
+        if any(e[0] == 16 for e in obs[2][n1:]):
+            k.append('retry:response-callback-ran-in-second-attempt')
+        k.append('faults-fired:%d' % len(_fired(case, obs)))
+        return k
     k.append('subscribers:%s' % ('added-after-the-app-was-built' if case['excview'] & 8 else 'before'))
+    k.append('registry-history:%s' % ('handlers-registered-and-removed-before-the-request' if case['excview'] & 16
+                                      else 'none'))
     depth, s = 0, case['scn']
     while s['sub']:
         depth, s = depth + 1, s['sub']['scn']
@@ -773,9 +940,13 @@ def explain(item):
     if c.get('t') == 'scope':
         return ('scope %s with a failure injected at %s: observed [exit 0=return/1=raise, frames popped from the '
                 "caller's stack, frames left pushed] = %r" % (c['name'], c['site'], item['impl']))
+    if c.get('t') == 'retry':
+        return ('one request object sent through Router.invoke_request twice by a retrying execution policy (marker = '
+                'point 22 between the attempts); observed [outcome, final depth, log of [point, level, depth, '
+                'current-is-this, aux]]')
     return 'request scenario; observed [outcome, final depth, log of [point, level, depth, current-is-this, aux]]'
 
 
 def targeted(broken, disagreements, rng):
     """a broken skeleton theorem / pin: replay every scope with every failure site, then the single-fault sweep"""
-    return enumerate_scopes() + enumerate_single()
+    return enumerate_scopes() + enumerate_single() + enumerate_late_subscribers() + enumerate_registry_history()
